@@ -23,3 +23,11 @@ CHECKS["C02"] = dict(
           "every part equal, re-renders byte for byte and decomposes uniquely. Conformance: rt/rt2/parse events recorded from format_version, "
           "parse_version_info, incr and `bumpver test` chains are validated by the trace spec."),
     note=_NOTE, ref="DESIGN.md section 6, C02")
+CHECKS["C14"] = dict(
+    technique="TLA+ spec (BVCalendar/BVVersion/BVPep440) model-checked with TLC over all day pairs + trace validation of cal_info, renderings and bumps of the real code",
+    text=("Design level: TLC walks consecutive day pairs (quick: 2019..2030 plus every New Year +-4 days of 2001..2099; thorough: every pair 2001..2099) and checks for all 48 "
+          "coherent year x sub-part combinations that the rendered version never decreases in PEP 440 order; every rejected pairing has a witness day pair on which it "
+          "does decrease; bump-level pairs (old date, new date) incl. new < old never move calendar parts backwards. The theorem transfers to the code through exhaustive "
+          "equalities validated by the trace spec: cal_info on every day 2001..2099, the code's own renderings of consecutive days (`mono` events, compared with the spec's "
+          "VerCmp and the code's own comparison), is_valid_week_pattern verdicts on all pairings, and library/CLI bumps around every New Year."),
+    note=_NOTE, ref="DESIGN.md section 6, C14")
